@@ -200,13 +200,17 @@ func Run(seed uint64, index int64, o hx.Opts) *hx.Result {
 	if o.Scenario == "seqenum" {
 		return runSeqEnum(seed, index, o)
 	}
+	if o.Scenario == "ttlenum" {
+		o.Param["ttl"] = 1
+		return runSeqEnum(seed, index, o)
+	}
 	if o.Scenario == "pairenum" {
 		return runPairEnum(seed, index, o)
 	}
 	res := &hx.Result{Property: "C17", Index: index, Seed: seed, Extra: map[string]int64{}}
 	en := [rt.NumKinds]bool{}
 	en[rt.KGap], en[rt.KSched] = true, true
-	cfg := rt.Config{Seed: seed, Replay: o.Replay, Verbose: o.Verbose, NPoints: o.NPoints, Bias: hx.Swarm(seed, en), MaxSteps: 400_000}
+	cfg := rt.Config{Seed: seed, Replay: o.Replay, Verbose: o.Verbose, NPoints: o.NPoints, Bias: hx.Swarm(seed, en), MaxSteps: 4_000_000}
 	hx.PCTShare = 6 // the table's windows are a few statements wide: mostly random preemption, some priority runs
 	cfg.PCT = hx.SwarmPCT(seed)
 	w := rt.NewWorld(cfg)
